@@ -27,7 +27,8 @@ class DrawSrc:
             return True
         if p <= 0:
             return False
-        return self.draw(st.integers(0, 999)) < int(p * 1000)
+        k = max(1, min(39, int(round(p * 40))))
+        return self.draw(st.sampled_from([True] * k + [False] * (40 - k)))
 
     def shuffle(self, seq):
         return list(self.draw(st.permutations(list(seq))))
